@@ -330,3 +330,37 @@ PROPS["C13"] = dict(
               "matching / non-matching keys and tags, for every zoo target under 4 atlases; integers of every magnitude into every numeric "
               "kind (C09); real obj.Unmarshaller stepped token by token under recover; flags and the resulting Go value compared",
 )
+
+def rule_roundtrip(body, I, M):
+    i = I.get("I", "")
+    if i == "def" or body[:2] in ("T ", "A ", "Y "):
+        return dict(corr_ok=True, prop_ok=True, nontrivial=False, bucket="def", why="")
+    if _bad_impl(i):
+        return dict(corr_ok=False, prop_ok=False, nontrivial=True, bucket="crash", why="implementation " + i)
+    corr_ok = (i == M.get("M"))
+    o = I.get("O", "ok")
+    prop_ok, why = (o == "ok"), ("oracle: " + o if o != "ok" else "")
+    parts = i.split("/")
+    if prop_ok and parts[-1] == "ok":
+        if parts[1] != M.get("S"):
+            prop_ok, why = False, "round trip returned %s, specified value (norm) is %s" % (parts[1], M.get("S"))
+    elif prop_ok and parts[-1] == "err" and (M.get("M") or "").endswith("/ok"):
+        prop_ok, why = False, "round trip failed where the model succeeds: " + i
+    if not corr_ok and not why:
+        why = "implementation and model differ"
+    return dict(corr_ok=corr_ok, prop_ok=prop_ok, nontrivial=(parts[-1] == "ok" and len(parts[0]) > 4), bucket=parts[-1], why=why)
+RULES["roundtrip"] = rule_roundtrip
+
+PROPS["C01"] = dict(
+    disabled=True, na_reason="model and correspondence tie built; theorems are being proved",
+    level="proof",
+    lean_module="RefmtProofs.Props.C01",
+    theorems=[],
+    streams=[dict(name="roundtrip", gen="roundtrip", rule="roundtrip")],
+    title="Marshal then Unmarshal returns the original value",
+    claim="(work in progress)",
+    rule_text="values of ~95 zoo types x 5 atlas configurations x {CBOR, JSON with random Line/Indent}: type-directed random values "
+              "(boundary numbers, nil/empty containers, nested pointers, untyped slots holding what the equality can see through, unions, "
+              "transforms, tagged types) through the real MarshalAtlased/UnmarshalAtlased; compared with the model composition "
+              "(marshal, encode, decode, unmarshal) and with the specified value norm(v); non-trivial = successful round trip of > 2 bytes",
+)
